@@ -534,6 +534,8 @@ func suiteSession(h *H) {
 				[]string{"-a", "--delete", "--exclude=cache"}, []string{"a", "cache"}, []string{"cache~after", "zz"}},
 			{"protected-dir", sTree{"a": f("a")}, sTree{"a": f("a"), "cache": dnode, "cache/in": f("c"), "cache~after": f("x"), "zz": f("z")},
 				[]string{"-a", "--delete", "--exclude=cache"}, []string{"a", "cache", "cache/in"}, []string{"cache~after", "zz"}},
+			{"protected-below-extraneous", sTree{"a": f("a")}, sTree{"a": f("a"), "keep.db": f("top"), "olddir": dnode, "olddir/keep.db": f("k"), "olddir/other": f("o")},
+				[]string{"-a", "--delete", "--exclude=keep.db"}, []string{"a", "keep.db", "olddir/keep.db"}, []string{"olddir/other"}},
 			{"rule-names-root", sTree{"keep": f("k"), "src": f("nested same name"), "other": dnode, "other/file": f("o")}, sTree{},
 				[]string{"-a", "--exclude=src"}, []string{"keep", "other", "other/file"}, []string{"src"}},
 			{"dironly-rule-names-root", sTree{"keep": f("k"), "src": dnode, "src/x": f("x"), "zlast": f("z")}, sTree{},
@@ -559,6 +561,9 @@ func suiteSession(h *H) {
 						v = fmt.Sprintf("FAIL[C13] %q is missing after the transfer (options %v): it is listed and not excluded, or protected by the rule", pth, fxr.opts)
 						if _, wasThere := fxr.dst[pth]; wasThere {
 							v = fmt.Sprintf("FAIL[C09] %q, which the exclude rule protects (or the list names), was removed (options %v)", pth, fxr.opts)
+							if fxr.tag == "protected-below-extraneous" {
+								v = fmt.Sprintf("FAIL[C09] entry %q protected by an exclude rule was deleted together with the extraneous directory above it (such a directory is removed with everything in it)", pth)
+							}
 						}
 					}
 				}
